@@ -76,11 +76,73 @@ def _own_locals(fn):
 
 
 def function_shape(fn):
-    """(shape digest, spellings, refs) of an outermost function: the AST with every function-local name replaced by a
+    """(shape digest, spellings, refs, orientation flags, commutative nodes) of an outermost function: the AST with every function-local name replaced by a
     positional placeholder, scope by scope (a nested function or lambda has its own locals; its free variables resolve
     to the enclosing function's placeholders). Two functions with equal digests differ only in how locals are spelled.
     spellings[i] is the current spelling of placeholder i, refs[i] the (node, field) pairs that carry it."""
     spellings, refs, parts = [], [], []
+    flags, comm = [], []  # orientation of every commutative node (source order vs canonical order), in canonical traversal order
+    skeys = {}
+
+    def skey(n):
+        """Name-free structural key of a subtree (used only to order the operands of commutative nodes canonically)."""
+        i = id(n)
+        if i not in skeys:
+            if isinstance(n, ast.Name):
+                k = "$"
+            elif isinstance(n, ast.AST):
+                k = type(n).__name__ + "(" + ",".join(f_ + "=" + skey(v) for f_, v in ast.iter_fields(n) if f_ not in ("lineno", "col_offset", "end_lineno", "end_col_offset", "type_comment", "ctx")) + ")"
+            elif isinstance(n, list):
+                k = "[" + ",".join(skey(x) for x in n) + "]"
+            else:
+                k = repr(n)
+            skeys[i] = k
+        return skeys[i]
+
+    def peek(name, scopes):
+        for sc in reversed(scopes):
+            if name in sc:
+                return sc[name]
+        return "g"
+
+    def pkey(n, scopes):
+        """Like skey, with local names that are already numbered replaced by their placeholder (ties between operands that
+        differ only in which already-seen locals they mention are then ordered canonically as well)."""
+        if isinstance(n, ast.Name):
+            k = peek(n.id, scopes)
+            return "$?" if k is None else (n.id if k == "g" else f"${k:04d}")
+        if isinstance(n, ast.AST):
+            return type(n).__name__ + "(" + ",".join(pkey(v, scopes) for f_, v in ast.iter_fields(n) if f_ not in ("lineno", "col_offset", "end_lineno", "end_col_offset", "type_comment", "ctx")) + ")"
+        if isinstance(n, list):
+            return "[" + ",".join(pkey(x, scopes) for x in n) + "]"
+        return repr(n)
+
+    def before(b, a, scopes):
+        """Should operand b be emitted before operand a in the canonical order?"""
+        kb, ka = skey(b), skey(a)
+        if kb != ka:
+            return kb < ka
+        pb, pa = pkey(b, scopes), pkey(a, scopes)
+        if "$?" in pb or "$?" in pa:
+            return False
+        return pb < pa
+
+    SEQ = ("List(", "Tuple(", "JoinedStr(", "ListComp(", "attr='inputs'", "attr='outputs'", "attr='intermediates'", "attr='ranges'", "attr='ops'", "attr='passes'")
+
+    def commutative(n):
+        if isinstance(n, ast.BinOp) and isinstance(n.op, (ast.Add, ast.Mult, ast.BitAnd, ast.BitOr, ast.BitXor)):
+            if isinstance(n.op, ast.Add):
+                for side in (n.left, n.right):
+                    k = skey(side)
+                    if any(t in k for t in SEQ) or (isinstance(side, ast.Constant) and isinstance(side.value, (str, bytes))):
+                        return None
+            return "bin"
+        if isinstance(n, ast.Compare) and len(n.ops) == 1:
+            if isinstance(n.ops[0], (ast.Eq, ast.NotEq)):
+                return "eq"
+            if isinstance(n.ops[0], (ast.Lt, ast.LtE, ast.Gt, ast.GtE)):
+                return "ord"
+        return None
 
     def new_ph(name):
         spellings.append(name)
@@ -135,6 +197,45 @@ def function_shape(fn):
                     refs[k].append((n, "id"))
                     parts.append(f"N(${k},{type(n.ctx).__name__})")
                     return
+            if isinstance(n, (ast.ListComp, ast.SetComp, ast.GeneratorExp, ast.DictComp)):
+                # bind the comprehension variables before the element expression is looked at
+                parts.append(type(n).__name__ + "(")
+                dump(n.generators, scopes)
+                if isinstance(n, ast.DictComp):
+                    dump(n.key, scopes)
+                    dump(n.value, scopes)
+                else:
+                    dump(n.elt, scopes)
+                parts.append(")")
+                return
+            kind = commutative(n)
+            if kind == "bin":
+                a, b = n.left, n.right
+                fl = 1 if before(b, a, scopes) else 0
+                flags.append(fl)
+                comm.append(n)
+                parts.append(f"BinOp({type(n.op).__name__},")
+                dump(b if fl else a, scopes)
+                parts.append(",")
+                dump(a if fl else b, scopes)
+                parts.append(")")
+                return
+            if kind in ("eq", "ord"):
+                a, b = n.left, n.comparators[0]
+                op = type(n.ops[0]).__name__
+                if kind == "eq":
+                    fl = 1 if before(b, a, scopes) else 0
+                else:
+                    fl = 1 if op in ("Gt", "GtE") else 0
+                    op = {"Gt": "Lt", "GtE": "LtE"}.get(op, op)
+                flags.append(fl)
+                comm.append(n)
+                parts.append(f"Compare({op},")
+                dump(b if fl else a, scopes)
+                parts.append(",")
+                dump(a if fl else b, scopes)
+                parts.append(")")
+                return
             parts.append(type(n).__name__ + "(")
             for f_, v in ast.iter_fields(n):
                 if f_ in ("lineno", "col_offset", "end_lineno", "end_col_offset", "type_comment", "ctx"):
@@ -158,7 +259,7 @@ def function_shape(fn):
             parts.append(repr(n))
 
     dump(fn, [])
-    return hashlib.sha256("".join(parts).encode()).hexdigest()[:20], spellings, refs
+    return hashlib.sha256("".join(parts).encode()).hexdigest()[:20], spellings, refs, "".join(map(str, flags)), comm
 
 
 def outer_functions(tree):
@@ -182,10 +283,12 @@ def outer_functions(tree):
 
 
 def align_local_names(modname, tree):
-    """Undo pure renamings of function-local names: when a function has exactly the shape recorded for it in
-    baseline_names.json (generated from the tree the rules were confirmed on) but spells some locals differently, the
-    locals are renamed back to the recorded spelling before any rule looks at the function. A function whose shape
-    differs from the baseline is left as it is. Returns the number of functions re-spelled."""
+    """Undo pure renamings of function-local names and pure re-orientations of commutative operators / comparisons
+    (`a + b` / `b + a`, `x == y` / `y == x`, `a < b` / `b > a`): when a function has exactly the shape recorded for it
+    in baseline_names.json (generated from the tree the rules were confirmed on; the shape is insensitive to both) but is
+    spelled / oriented differently, it is brought back to the recorded form before any rule looks at it. `+` on operands
+    that look like sequences is not treated as commutative. A function whose shape differs from the baseline is left as
+    it is. Returns the number of functions re-formed."""
     base = _baseline().get(modname)
     if not base:
         return 0
@@ -194,15 +297,52 @@ def align_local_names(modname, tree):
         b = base.get(q)
         if not b:
             continue
-        digest, names, refs = function_shape(fn)
-        if digest != b["shape"] or names == b["names"] or len(names) != len(b["names"]):
+        digest, names, refs, flags, comm = function_shape(fn)
+        if digest != b["shape"] or len(names) != len(b["names"]) or len(flags) != len(b.get("flags", flags)):
+            continue
+        if names == b["names"] and flags == b.get("flags", flags):
             continue
         for cur, old, rf in zip(names, b["names"], refs):
             if cur != old:
                 for node, field in rf:
                     setattr(node, field, old)
+        for cur, old, node in zip(flags, b.get("flags", flags), comm):
+            if cur != old:
+                _swap_operands(node)
         n += 1
     return n
+
+
+_FLIP = {ast.Lt: ast.Gt, ast.Gt: ast.Lt, ast.LtE: ast.GtE, ast.GtE: ast.LtE}
+
+
+def _swap_operands(node):
+    if isinstance(node, ast.BinOp):
+        node.left, node.right = node.right, node.left
+    elif isinstance(node, ast.Compare):
+        node.left, node.comparators[0] = node.comparators[0], node.left
+        t = type(node.ops[0])
+        if t in _FLIP:
+            node.ops[0] = _FLIP[t]()
+
+
+class _Aug(ast.NodeTransformer):
+    """`x = x op e` (target repeated as the left operand) is read as `x op= e`: the rules were written against the
+    augmented form the code base uses throughout, and the two spellings do not differ for any analysed quantity."""
+
+    def visit_Assign(self, node):
+        self.generic_visit(node)
+        if len(node.targets) == 1 and isinstance(node.value, ast.BinOp) and isinstance(node.targets[0], (ast.Name, ast.Attribute, ast.Subscript)) \
+                and isinstance(node.value.op, (ast.Add, ast.Sub, ast.Mult, ast.FloorDiv, ast.BitOr, ast.BitAnd, ast.LShift, ast.RShift)):
+            t = node.targets[0]
+            if ast.dump(t).replace("Store()", "Load()") == ast.dump(node.value.left):
+                return ast.copy_location(ast.AugAssign(target=t, op=node.value.op, value=node.value.right), node)
+        return node
+
+
+def _augment(tree):
+    _Aug().visit(tree)
+    ast.fix_missing_locations(tree)
 
 
 class Module:
@@ -216,6 +356,7 @@ class Module:
         self.src = raw.decode("utf-8")
         self.lines = self.src.splitlines()
         self.tree = ast.parse(self.src, filename=path)
+        _augment(self.tree)
         self.respelled = align_local_names(name, self.tree)
         self.functions = {}
         self.classes = {}
